@@ -164,6 +164,9 @@ func (r *openpgpReader) Read(p []byte) (n int, err error) {
 	return
 }
 
+// maxHeaderValueLength bounds the value of one armor header ("Comment: …"); GnuPG wraps such lines at 76 characters.
+const maxHeaderValueLength = 64 * 1024
+
 // Decode reads a PGP armored block from the given Reader. It will ignore
 // leading garbage. If it doesn't find a block, it will return nil, io.EOF. The
 // given Reader is not usable after calling this function: an arbitrary amount
@@ -207,6 +210,12 @@ TryNextBlock:
 			return
 		}
 		if isContinuation {
+			// the reader delivers a long line in 100-byte pieces and each piece is appended to the value so far: keep the
+			// value (and with it the copying, which is quadratic in its length) bounded
+			if len(p.Header[lastKey])+len(line) > maxHeaderValueLength {
+				p = nil
+				return nil, ArmorCorrupt
+			}
 			p.Header[lastKey] += string(line)
 			continue
 		}
